@@ -175,13 +175,16 @@ impl C12 {
         for k in 0..3 {
             docs.push(pool.generated(&Family::Dangling, k));
         }
-        for k in 0..2 {
+        for k in 0..4 {
             docs.push(pool.generated(&Family::SharedHeader, k));
         }
         for k in 0..2 {
             docs.push(pool.generated(&Family::JbigCycle, k));
         }
         docs.push(pool.generated(&Family::LongParents, 0));
+        for k in 0..2 {
+            docs.push(pool.generated(&Family::IccCycle, k));
+        }
         // documents with an update history of their own (several sections, freed and reused numbers,
         // cross-reference streams that share an object number, stale object-stream members)
         for k in 0..(if tier == Tier::Quick { 8 } else { 48 }) {
